@@ -83,6 +83,29 @@ def programs(rng, quick):
 
     strided_done = {}
 
+    # degenerate series first (before anything else has compiled the helpers): nothing valid at all, or a single
+    # observation in the first / the last cell - divisions by a zero count must end the same way in both engines
+    for n in (4, 9):
+        for kind in ("allmissing", "onlyfirst", "onlylast"):
+            yi = np.full(n, ND, dtype="int16")
+            if kind == "onlyfirst":
+                yi[0] = 500
+            elif kind == "onlylast":
+                yi[-1] = 500
+            yf = yi.astype("float64")
+            yf[yi == ND] = np.nan
+            lab = f"n={n},{kind}"
+            nj("autocorr_1d_int", lab, ac.autocorr_1d_int, yi, ND)
+            nj("autocorr_1d_float", lab, ac.autocorr_1d_float, yf)
+            nj("autocorr_1d", lab, ac.autocorr_1d, yi, ND)
+            lz("autocorr", lab, ops.autocorr, yi.reshape(1, 1, n), ND, f32=True)
+            lz("autocorr_tyx", lab, ops.autocorr_tyx, yi.reshape(n, 1, 1), ND, f32=True)
+            gu("lroo", lab, ops.lroo, ((yi > 100).astype("uint8"),), [((), "uint32")])
+            for dt in ("int16", "float32"):
+                gu("_mann_kendall_trend_gu_nd", lab + f",{dt}", stats._mann_kendall_trend_gu_nd, (yi.astype(dt), ND), [((), "float32"), ((), "float32"), ((), "float32"), ((), "int8")], f32=True)
+            gu("rolling_sum", lab, stats.rolling_sum, (yi, 2, ND), [((n,), "float32")], f32=True)
+            gu("mean_grp", lab, stats.mean_grp, (yi, np.array([i % 2 for i in range(n)], dtype="int16"), 2, ND), [((n,), "float32")], f32=True)
+            nj("gammastd_yxt", lab, stats.gammastd_yxt, yi.reshape(1, 1, n), ND, 0, n)
     reps = 2 if quick else 12
     for _ in range(reps):
         for n in ([4, 5, 9, 24] if quick else [4, 5, 9, 24, 60]):
